@@ -272,14 +272,16 @@ impl<'a> Gen<'a> {
                     let v = st.fresh("hv");
                     push(&mut alts, Op::AddProps { slot: sl, props: vec![("hk".into(), v)] });
                     let e = st.fresh("he");
-                    push(&mut alts, Op::AddEvent { slot: sl, name: e, props: vec![] });
+                    let ev = st.fresh("hev");
+                    push(&mut alts, Op::AddEvent { slot: sl, name: e, props: vec![("hek".into(), ev)] });
                 }
             }
             if c.local_attach && (!s.stacks[a].is_empty() || c.allow_inert_local) {
                 let v = st.fresh("lv");
                 push(&mut alts, Op::LocalAddProps { props: vec![("lk".into(), v)] });
                 let e = st.fresh("le");
-                push(&mut alts, Op::LocalAddEvent { name: e, props: vec![] });
+                let ev = st.fresh("lev");
+                push(&mut alts, Op::LocalAddEvent { name: e, props: vec![("lek".into(), ev)] });
             }
         }
         if c.allow_cancel {
